@@ -21,8 +21,9 @@ ASSUMPTIONS = [
     'the offset-shift law is checked on the implementation (metamorphic), not proved',
 ]
 
-LEAVES = [S('a'), S('ab'), S(''), RX('a+'), RX('a*'), RX('[ab\\n]'), REF('A'), REF('B'), REF('K'), REF('N'),
+LEAVES = [S('a'), S('ab'), S(''), RX('a+'), RX('a*'), RX('[ab\\n]'), REF('A'), REF('B'), REF('K'), REF('N'), REF('M'),
           FAIL, PY('None'), PY('0'), SEQ()]
+BYTE_LEAVES = [S('a'), S('ab'), BYTE(0x62), RX('a+'), RX('[ab\\n]'), REF('A'), REF('K'), REF('N'), REF('M'), FAIL]
 
 
 def class_decl(rng, name, leaves, an, nullable_ok=True):
@@ -52,10 +53,12 @@ def build_jobs(tier, seed, for_c10=False):
     proto = dict(helpers_rules)
     proto['K'] = SEQ(OPT(S('a')))
     proto['N'] = SEQ(S('a'), OPT(S('b')))
+    proto['M'] = SEQ(RX('[ab\\n]+'))           # M: a class that can reach far (a lookahead leaves instances that end beyond the match)
     an = G.Analysis(proto)
     seen = set()
     for i in range(n):
-        leaves = LEAVES
+        bm = rng.random() < 0.1
+        leaves = BYTE_LEAVES if bm else LEAVES
         with_ignore = rng.random() < 0.25
         decls = []
         start_kind = rng.choice(['plain', 'plain', 'class'])
@@ -72,10 +75,11 @@ def build_jobs(tier, seed, for_c10=False):
         decls.append(('class', 'K', [('x', False, OPT(S('a')))]))
         decls.append(('class', 'N', [('x', False, S('a')), ('y', rng.random() < 0.3, OPT(S('b'))),
                                      (None, False, OPT(REF('K')))][:rng.randint(2, 3)]))
+        decls.append(('class', 'M', [('x', False, RX('[ab\\n]+'))]))
         decls += [('rule', k, v) for k, v in G.HELPERS.items()]
         if with_ignore:
             decls.insert(rng.randint(0, len(decls)), ('ignore', None, RX(' +')))
-        text = c04.render_grammar(decls)
+        text = c04.render_grammar(decls, bm)
         if text in seen:
             continue
         seen.add(text)
@@ -90,8 +94,10 @@ def build_jobs(tier, seed, for_c10=False):
             if len(t) <= 1 or rng.random() < 0.1:
                 # an offset beyond the end: the text from there on is empty
                 cases.append((len(t) + rng.choice([1, 2, 5]), t))
+        if bm:
+            cases = [(k, t.encode('latin-1')) for k, t in cases]
         entries = ['__module__', 'start', 'K', 'N'] + rng.sample(['A', 'B', 'C'], 1)
-        jobs.append({'id': len(jobs), 'text': text, 'cases': cases, 'entries': entries,
+        jobs.append({'id': len(jobs), 'text': text, 'cases': cases, 'entries': entries, 'bm': bm,
                      'check_shift': not with_ignore or True, 'check_linecol': True, 'fuel': 120,
                      'meta': {'ctx': f'{start_kind}{"/ignore" if with_ignore else ""}', 'kinds': [], 'depth': 0}})
     return jobs
